@@ -186,6 +186,8 @@ _RW_FIXED = [
     {"kind": "pts", "pts": [[0.0, 0.0], [80.0, 0.0], [0.0, 60.0]], "spacing": 10.0, "rot_deg": -90.0},
     {"kind": "rect", "w": 100.0, "h": 60.0, "spacing": 10.0, "rot_deg": 0.0, "shift": [10.0, 10.0], "sweep": [15.0, -90.0, 90.0]},
     {"kind": "regular", "n": 6, "r": 40.0, "spacing": 10.0, "rot_deg": 30.0},
+    {"kind": "rect", "w": 10.0, "h": 50.0, "spacing": 10.0, "rot_deg": 0.0, "shift": [10.0, 10.0]},      # a lot exactly one spacing wide: two columns
+    {"kind": "rect", "w": 25.0, "h": 75.0, "spacing": 25.0, "rot_deg": 0.0},
 ]
 
 
@@ -201,6 +203,8 @@ def _rowwise_gen(rng):
          "shift": rng.choice([[0.0, 0.0], [0.0, 0.0], [10.0, 10.0], [0.0, 25.0], [33.3, 0.0]])}
     if kind == "rect":
         a.update(w=rng.choice([40.0, 65.0, 100.0, 123.4]), h=rng.choice([30.0, 60.0, 77.7]))
+        if rng.random() < 0.3:  # sides that are exact multiples of the spacing, down to a lot exactly one spacing wide (boundary of floor(W/s))
+            a.update(w=a["spacing"] * rng.choice([1, 1, 2, 3, 5]), h=a["spacing"] * rng.choice([1, 2, 3, 6]), rot_deg=0.0, clockwise=False)
     elif kind == "regular":
         a.update(n=rng.randint(3, 12), r=rng.choice([30.0, 50.0, 80.0]), phase=rng.choice([0.0, 0.3, math.pi / 7]))
     else:
